@@ -44,6 +44,7 @@ Total(st) == LET RECURSIVE Sum(_) Sum(i) == IF i > Len(st) THEN 0 ELSE (IF st[i]
 MCProgs(st) ==
   { << Op("RM"), Op("RM"), Op("RM") >>,
     << Op("NR"), Op("RA"), Op("NR"), Op("RA"), Op("NR") >>,
+    << Op("NR"), Rc, Op("NR"), Rc, Op("RM") >>,
     << Op("NR"), Op("NR"), Op("RM") >>,
     << Op("NR"), Rl(4096), Op("NR"), Rl(512), Op("NR") >>,
     << Op("NR"), Rd(1), Op("NR"), Op("RA"), Op("NR") >>,
